@@ -3,9 +3,6 @@
 A path's ghost trace is a concrete Python list of Event objects (symbolic arguments); ordering / dominance
 questions are decided concretely per path, argument conditions become z3 goals under the path condition.
 A trace clause is  fn(ex, st, post, result) -> iterable of (id, z3 Bool goal, text)."""
-import z3
-
-from .values import VOpaque, VOpt, VNone, VSeq, VBool, eq
 
 
 def evs(st, *names):
@@ -17,6 +14,7 @@ def held(e):
 
 
 def B(b):
+    import z3
     return z3.BoolVal(bool(b))
 
 
